@@ -310,7 +310,7 @@ def justifications(F, models):
         # J1: n - 1 in function_static_arguments with literal call sites
         f = m.tb.fn("::parser::Parser::function_static_arguments")
         if f is not None:
-            t = m.tb.fn_term(f)
+            t = m.tb.parser_term(f)
             pn = T.param_ids(f)[1][1]
             nsub = len([s for s in subterms(t) if s == ("op", "sub", "i32", ("param", pn), ("lit", "1", "i32"))])
             sites = []
@@ -327,6 +327,9 @@ def justifications(F, models):
                             sites.append(int(e["?k"]))
             if nsub and lit_only and sites and not f.j.get("public"):
                 J[f.path][("assert", "Overflow(Sub)")] += nsub
+                for g in F.fns:
+                    if g.kind == "Closure" and g.parent == f.path:
+                        J[g.path][("assert", "Overflow(Sub)")] += nsub      # the same `n - 1`, written inside a closure of the function
                 rec.append({"schema": "LITERAL-ARGS", "fn": f.key, "argument": "n - 1 on the parameter of a private function whose %d call sites all pass literals in %s" % (len(sites), sorted(set(sites)))})
             elif nsub:
                 rec.append({"schema": "LITERAL-ARGS", "fn": f.key, "premise_failed": "a call site passes a non-literal argument (or the function is public)"})
